@@ -112,8 +112,7 @@ def clone_deep(v, memo=None):
         m = HMap(); m.keys = [clone_deep(k) for k in v.keys]; m.vals = [clone_deep(x) for x in v.vals]; return m
     if isinstance(v, HSet):
         s = HSet(); s.items = [clone_deep(k) for k in v.items]; return s
-    if isinstance(v, Ref): return ValRef(clone_deep(v.get()))
-    return v
+    return v                    # references (&T / EntRef) are copied as references: the target is shared
 
 
 # ---------------------------------------------------------------- independent position oracle
